@@ -1,9 +1,60 @@
 (* Property C08 - only statements, each closed by [exact]. *)
-From Coq Require Import NArith List Bool.
+From Coq Require Import NArith List Bool Sorting.Sorted Permutation.
 Import ListNotations.
 Require Import UV.C08.Model UV.C08.Proofs.
 Local Open Scope N_scope.
 
-Theorem C08_placeholder : add64 0 0 = 0.
-Proof. exact placeholder. Qed.
-Print Assumptions C08_placeholder.
+(* The accumulation automaton of fstack_account_time + report_update_node (uint64 arithmetic, clamp
+   included), run over the records of a complete call from any LOST-free state with enough free stack
+   slots, adds the call's duration to the parent's child time and emits exactly the rows of the
+   recursion on the call tree - for every tree, every depth, every stack below it. *)
+Theorem C08_automaton_is_tree_recursion : forall c d stk dead usc l lx out, (height c <= length dead)%nat ->
+  exists dead', length dead' = length dead /\
+    run (mid stk dead usc l lx) out (flat d c)
+    = (mid (bump stk (dur64 c)) dead' usc (c_t1 c) (c_t1 c), out ++ rows64 (map s_addr stk) c).
+Proof. exact run_call. Qed.
+Print Assumptions C08_automaton_is_tree_recursion.
+
+(* For well-timed trees (t0 <= callees in sequence <= t1 < 2^64) those rows are what the property says:
+   total = t1 - t0, self = total - durations of the direct callees, recursive = same address open above. *)
+Theorem C08_total_self : forall c anc, wt c -> rows64 anc c = spec_rows anc c.
+Proof. exact rows64_spec. Qed.
+Print Assumptions C08_total_self.
+
+(* The Self times of all invocations inside a call add up to the call's duration (telescoping). *)
+Theorem C08_conservation : forall c anc, wt c -> sum_self (spec_rows anc c) = dur c.
+Proof. exact conservation. Qed.
+Print Assumptions C08_conservation.
+
+(* Each function has exactly one node (names strictly increasing) and it is the accumulation of exactly
+   the rows bearing its name, in any table reached from a sorted table. *)
+Theorem C08_one_node_per_function : forall nms rows tbl, names_sorted tbl ->
+  names_sorted (fold_left (tbl_add nms) rows tbl)
+  /\ forall nm, find_node (fold_left (tbl_add nms) rows tbl) nm = fold_left (acc nms nm) rows (find_node tbl nm).
+Proof. exact table_lookup. Qed.
+Print Assumptions C08_one_node_per_function.
+
+(* report_sort_nodes: a permutation of the table in which no row stands before a larger one under the
+   key list, rows equal under all keys in name order - for every key list. *)
+Theorem C08_sorted : forall ks tbl, names_sorted tbl ->
+  StronglySorted (before ks) (sort_nodes ks tbl) /\ Permutation tbl (sort_nodes ks tbl).
+Proof. exact sort_nodes_sorted. Qed.
+Print Assumptions C08_sorted.
+
+(* --diff of a table against itself pairs every row with itself and all differences are zero. *)
+Theorem C08_self_diff_zero : forall c,
+  diff_pairs (report c) (report c) = map (fun n => (n, n)) (report c)
+  /\ forallb diff_is_zero (map diff_cols (diff_pairs (report c) (report c))) = true.
+Proof. exact (fun c => diff_self_zero (report c) (report_names_sorted c)). Qed.
+Print Assumptions C08_self_diff_zero.
+
+(* The printed time is the value truncated to its unit for every value below 24 minutes (exact below 1 ms). *)
+Theorem C08_printed_time : forall ns, ns < 1440000000000 -> ok_cell ns (fmt_time ns) = true.
+Proof. exact fmt_time_ok. Qed.
+Print Assumptions C08_printed_time.
+
+(* From 24 minutes on it is not: __print_time_unit divides minutes by 24 (35 min is printed "1.011 h"). *)
+Theorem C08_printed_time_hours_refuted :
+  let ns := 35 * 60 * 1000000000 in fmt_time ns = Some (1, 11, 4) /\ ok_cell ns (fmt_time ns) = false.
+Proof. exact fmt_time_hours_refuted. Qed.
+Print Assumptions C08_printed_time_hours_refuted.
